@@ -6,6 +6,9 @@ from checks import c13, schedlib as SL
 def build_loop(ctx):
     return c13.build(ctx, harness="server_loop_h.cpp", name="server_loop_h")
 
+def build_tcp(ctx):
+    return c13.build(ctx, harness="server_tcp_h.cpp", name="server_tcp_h")
+
 def build_threaded(ctx):
     return SL.build(ctx, "c14_sched", "c14_scen.cpp", ["src/Socket/Server.cpp", "src/Socket/Socket.cpp", "src/Time.cpp", "src/Future.cpp", "src/Signal.cpp", "src/Thread.cpp",
                                                        "src/Mutex.cpp", "src/String.cpp", "src/Memory.cpp", "src/Debug.cpp", "src/Error.cpp", "src/System.cpp"])
@@ -19,6 +22,10 @@ def run(ctx):
     m = c13.build_multi(ctx)
     mt, meb, mrb = (3, 2, 1) if q else (4, 2, 1)
     ctx.run_shards(m, ["--prop", "C14", "--turns", str(mt), "--eb", str(meb), "--rb", str(mrb)], label="two clients turns=%d eb=%d rb=%d" % (mt, meb, mrb))
+    tcp = build_tcp(ctx)
+    tcfgs = [(4, 1), (3, 2)] if q else [(5, 1), (4, 2), (3, 3)]
+    for turns, reactions in tcfgs:
+        ctx.run_shards(tcp, ["--turns", str(turns), "--reactions", str(reactions)], label="server tcp turns=%d reactions=%d" % (turns, reactions))
     seq_exec = int(ctx.counters.get("executions", 0))
     seq_trans = int(ctx.counters.get("app_turns", 0) + ctx.counters.get("reactions", 0) + ctx.counters.get("timer_activations", 0) + ctx.counters.get("onRead", 0))
     # threaded part: interrupt() from a second thread
@@ -37,13 +44,19 @@ def run(ctx):
                            "(callback objects are freed on removal: ASan), readable / closed clients dispatched before the loop idles, onClosed exactly once, no onRead while "
                            "suspended, run() returns only after interrupt() and within 3 polls of it. two clients with send backlogs (%d turns, <= %d send deviations, <= %d reactions): "
                            "onRead / onWrite of one client suspends, resumes or removes the other while read|write events for both are buffered by the same poll round; oracle: only "
-                           "event kinds the client is registered for, nothing after remove(). threaded: run() (once or twice) against interrupt() (once or twice) from a "
+                           "event kinds the client is registered for, nothing after remove(). listeners and establishers over real TCP on the loopback interface of a private network "
+                           "namespace (%s turns / %s reactions): {listen, remove listener, a peer connects, establish to the listening / to a closed port, remove establisher, peer writes, "
+                           "remove client, interrupt} as turns and as reactions inside onAccepted / onConnected / onAbolished / onRead, each new client accepted or refused by the "
+                           "application; oracle: no callback after remove() (callback objects freed: ASan), every connection waiting at a live listener is accepted before the loop idles "
+                           "and none twice, the peer address is reported, every establisher gets exactly one of onConnected / onAbolished (connected iff something listened), data sent "
+                           "to an accepted client is dispatched. threaded: run() (once or twice) against interrupt() (once or twice) from a "
                            "second thread with the event descriptor and epoll_wait modelled by the scheduler, every schedule with <= %d preemptions"
-                           % ("/".join(str(x[0]) for x in cfgs), "/".join(str(x[1]) for x in cfgs), "/".join(str(x[2]) for x in cfgs), mt, meb, mrb, pb),
-                      {"sequential_executions": seq_exec, "sequential_transitions": seq_trans})
+                           % ("/".join(str(x[0]) for x in cfgs), "/".join(str(x[1]) for x in cfgs), "/".join(str(x[2]) for x in cfgs), mt, meb, mrb, "/".join(str(x[0]) for x in tcfgs), "/".join(str(x[1]) for x in tcfgs), pb),
+                      {"sequential_executions": seq_exec, "sequential_transitions": seq_trans, "tcp_part_explored": not ctx.counters.get("namespace_unavailable"),
+                       "tcp_settle_waits": int(ctx.counters.get("settle_waits", 0))})
     cov["states"] += 0
     cov["transitions"] += seq_trans
-    return ctx.finish("model_checking", cov, ["real kernel socket-pair / epoll readiness in the sequential part; listeners and establishers on TCP are not exercised",
+    return ctx.finish("model_checking", cov, ["real kernel socket-pair, loopback TCP and epoll readiness in the sequential parts; the TCP part needs the privilege to create a network namespace and reports tcp_part_explored=false without it; host-name resolution (the Future-based resolver) is not exercised",
                                               "a callback that removes a client hands back no callback object; zero timer intervals are excluded"],
                       tags=["C14", "deadlock", "livelock", "horizon", "primitive", "memory"])
 
@@ -52,7 +65,8 @@ def replay(ctx, rp):
         return SL.replay(ctx, rp, build_threaded(ctx))
     import subprocess
     from engine.driver import ASAN_ENV
-    b = c13.build_multi(ctx) if rp.get("binary", "").startswith("server_multi") else build_loop(ctx)
+    bn = rp.get("binary", "")
+    b = c13.build_multi(ctx) if bn.startswith("server_multi") else build_tcp(ctx) if bn.startswith("server_tcp") else build_loop(ctx)
     choices = rp["case"].split("choices=")[1].split(" ")[0]
     clean = []; skip = False
     for a in rp.get("args", []):
